@@ -144,7 +144,7 @@ EncMsg(m) ==
     [] m.T = "GroupMod"     -> Msg(15, m.Header.Xid, m.Command \o m.Type \o <<0>> \o m.GroupId \o EncList(EncBucket, m.Buckets))
     [] m.T = "PacketOut"    -> LET acts == EncActions(m.Actions) IN
                                Msg(13, m.Header.Xid, m.BufferId \o m.InPort \o BE16(Len(acts)) \o Zeros(6) \o acts \o EncPayload(m.Data))
-    [] m.T = "PortMod"      -> Msg(16, m.Header.Xid, m.PortNo \o Zeros(4) \o m.HWAddr \o Zeros(2) \o m.Config \o m.Mask \o m.Advertise \o Zeros(4))
+    [] m.T = "PortMod"      -> Msg(16, m.Header.Xid, m.PortNo \o Zeros(4) \o Fix(m.HWAddr, 6) \o Zeros(2) \o m.Config \o m.Mask \o m.Advertise \o Zeros(4))
     [] m.T = "MultipartRequest" -> Msg(18, m.Header.Xid, m.Type \o m.Flags \o Zeros(4) \o EncMpBody(m.Body))
     [] m.T = "MultipartReply" -> Msg(19, m.Header.Xid, m.Type \o m.Flags \o Zeros(4) \o EncList(EncStats, m.Body))
     [] m.T = "VendorHeader" -> Msg(4, m.Header.Xid, m.Vendor \o m.ExperimenterType \o EncVendorData(m.VendorData))
